@@ -228,6 +228,15 @@ def worker(idx, nworkers, tier, seed, extra):
                     judge_transcript(d, mon, "c01", with_model=(k % 16 == 0), replay=rp)
                     mon.count("multi_threaded_logins")
                 mon.cell(("mt", idx))
+        from common import load_name_collisions
+        for i, (hname, a, b) in enumerate(load_name_collisions()):
+            if i % nworkers != idx:
+                continue
+            for (u1, p1, u2, p2) in ((a, "pw1", b, "pw2"), (b, a, a, b), ("user", a, "user", b)):
+                for (u, p_) in ((u1, p1), (u2, p2), (u1, p1)):
+                    sc = {"user": u, "pw": p_, "cuser": u.lower(), "cpw": p_.upper(), "reimport": False}
+                    judge(ll_login(w, sc), mon, sc)
+                    mon.count("colliding_credential_logins")
         # volume with real randomness, plus boundary injections
         for k in range(n_random):
             r = rnd.random()
